@@ -520,6 +520,16 @@ def shapes(tier, seed):
         nm = "+".join("".join(f"{p}{q}" for q, p in w) for w in ws)
         out.append(Shape(f"expect/{routes[i % 2]}/multi/{i}_{nm}", h_expect,
                          dict(route=routes[i % 2], words=ws, spec=spec, n=nn, init=(i % 4 == 1), ident=(i % 3 == 0)), modules=MODS))
+    # words that share their sequence of non-Z letters but sit on DIFFERENT qubits (same basis-change gates, other targets)
+    same_letters = [([[(0, "X")], [(1, "X")]], 2), ([[(0, "X"), (1, "Z")], [(0, "Z"), (1, "X")]], 2), ([[(0, "X"), (1, "Y")], [(0, "Y"), (1, "X")]], 2),
+                    ([[(0, "Y")], [(1, "Y")], [(0, "Y"), (1, "Z")]], 2)]
+    for i, (ws, nn) in enumerate(same_letters):
+        for route in routes:
+            spec = PREPS[(i + 1) % len(PREPS)] if nn == 2 else PREPS[i % len(PREPS)] + [("CNOT", [2], [1]), ("RY", [2], [])]
+            nm = "+".join("".join(f"{p}{q}" for q, p in w) for w in ws)
+            out.append(Shape(f"expect/{route}/same-letters/{nm}", h_expect, dict(route=route, words=ws, spec=spec, n=nn, init=(i % 2 == 0)), modules=MODS))
+            if nn == 2:
+                out.append(Shape(f"expect/{route}/same-letters/{nm}/emptycircuit", h_expect, dict(route=route, words=ws, spec=[], n=nn, init=True), modules=MODS))
     for i, route in enumerate(routes):
         out.append(Shape(f"expect/{route}/scan", h_expect_scan, dict(route=route, words=[[(0, "X")], [(0, "Z"), (1, "Y")], [(1, "Z")]], spec=PREPS[i], n=2),
                          modules=MODS))
